@@ -264,7 +264,7 @@ int main(int argc, char **argv)
 	uint64_t res = mseed;
 	for(unsigned i = lp_lo; i < lp_hi; ++i) {
 		res = vmix(res, R[i].fini_digest);
-		if(variant == 0 && n_nodes > 1)
+		if(variant == 0)
 			printf("LPD %u %016llx\n", i, (unsigned long long)R[i].fini_digest);
 	}
 	unsigned long long rb = vh_counter_total(VC_ROLLBACK), anti = vh_counter_total(VC_ANTI_LOCAL);
